@@ -45,7 +45,7 @@ fn class_of(kind: u8) -> &'static str {
 pub fn check(rep: &Reporter) {
 	let thorough = rep.tier.thorough();
 	rep.set_rule(
-		"limits L = 40..260 in steps of 1 (thorough to 600, plus 2048/4096/10000) ∪ {1024, 65536}; for each L and each of 30 response shapes (result / error-with-data × ASCII / needs-escaping / 2-byte / 4-byte UTF-8 / control characters × id width 1 / 20 digits / string) every handler payload size whose unlimited reply is within L±3 (thorough ±6) bytes, plus 0 and a far-too-big one, over HTTP and WebSocket; batches of 1..4 (thorough 6) entries whose array length is L−2…L+2 (thorough ±4) with the adjustable entry at every position; WebSocket subscribe calls whose response carries a subscription id of controlled width (response length L−2…L+2); plus the full 1-step sweep of MethodResponse::response and BatchResponseBuilder. Oracle: the reply of a server with the limit disabled; every frame on the wire is ≤ L bytes or one of the two fixed errors; the handler log is the same with and without the limit. Distinct by (L, shape, size, transport).",
+		"limits L = 40..260 in steps of 1 (thorough to 600, plus 2048/4096/10000) ∪ {1024, 65536}; for each L and each of 30 response shapes (result / error-with-data × ASCII / needs-escaping / 2-byte / 4-byte UTF-8 / control characters × id width 1 / 20 digits / string) every handler payload size whose unlimited reply is within L±3 (thorough ±6) bytes, plus 0 and a far-too-big one, over HTTP and WebSocket; batches of 1..4 (thorough 6) entries whose array length is L−2…L+2 (thorough ±4) with the adjustable entry at every position, all valid calls or with one other entry (last / middle / first) replaced by a non-request (`17`, an object without method); WebSocket subscribe calls whose response carries a subscription id of controlled width (response length L−2…L+2); plus the full 1-step sweep of MethodResponse::response and BatchResponseBuilder. Oracle: the reply of a server with the limit disabled; every frame on the wire is ≤ L bytes or one of the two fixed errors; the handler log is the same with and without the limit. Distinct by (L, shape, size, transport).",
 	);
 	rep.assume("the 'fixed small too-big error itself' (-32008 / -32011) may exceed L, as the statement says");
 
@@ -145,13 +145,46 @@ pub fn check(rep: &Reporter) {
 		let _e = rt.enter();
 		let mut http = srv::http_service(cfg(l));
 		let ws = srv::ws_server(cfg(l));
+		// `inv`: one of the other entries is not a request at all (its reply is the fixed -32600 object); the array must
+		// be judged as a whole whichever kind of entry crosses the limit
+		const INVALID_ENTRIES: [&str; 2] = ["17", r#"{"jsonrpc":"2.0","id":5}"#];
+		let inv_positions: Vec<Option<(usize, usize)>> = {
+			let mut v = vec![None];
+			if k >= 2 {
+				for p in [k - 1, k / 2, 0] {
+					if p != j && !v.iter().flatten().any(|(q, _): &(usize, usize)| *q == p) {
+						for w in 0..INVALID_ENTRIES.len() {
+							v.push(Some((p, w)));
+						}
+					}
+				}
+			}
+			v
+		};
 		for kind in [0u8, 1, 3] {
+		for inv in inv_positions.iter().copied() {
+			if inv.is_some() && kind != 0 {
+				continue;
+			}
 			for delta in if thorough { -4i64..=4 } else { -2i64..=2 } {
 				// other entries carry 3 units; find n for entry j so that the unlimited array has L+delta bytes
-				let entry = |idx: usize, n: usize| call_text("blob", &format!("{}", idx + 1), kind, n);
+				let entry = |idx: usize, n: usize| match inv {
+					Some((p, w)) if p == idx => INVALID_ENTRIES[w].to_string(),
+					_ => call_text("blob", &format!("{}", idx + 1), kind, n),
+				};
+				// what an entry that is not a request is answered with inside a batch (alone, `17` is answered -32700)
+				const INVALID_REPLIES: [&str; 2] =
+					[r#"{"jsonrpc":"2.0","id":null,"error":{"code":-32600,"message":"Invalid request"}}"#, r#"{"jsonrpc":"2.0","id":5,"error":{"code":-32600,"message":"Invalid request"}}"#];
+				let inv_reply_len = |w: usize| INVALID_REPLIES[w].len();
 				let len_of = |n: usize| -> usize {
 					// reply lengths: unlimited replies for id width 1 (ids 1..4 have the same width)
-					1 + (0..k).map(|x| if x == j { unl[&(0, 0, kind_index(kind), n)].len() + 1 } else { unl[&(0, 0, kind_index(kind), 3)].len() + 1 }).sum::<usize>()
+					1 + (0..k)
+						.map(|x| match inv {
+							Some((p, w)) if p == x => inv_reply_len(w) + 1,
+							_ if x == j => unl[&(0, 0, kind_index(kind), n)].len() + 1,
+							_ => unl[&(0, 0, kind_index(kind), 3)].len() + 1,
+						})
+						.sum::<usize>()
 				};
 				let target = l as i64 + delta;
 				let Some(n) = (0..=NMAX).find(|n| len_of(*n) as i64 == target) else { continue };
@@ -159,6 +192,12 @@ pub fn check(rep: &Reporter) {
 				// reference from the entries' replies alone on the same limited server
 				let mut alone: Vec<Vec<u8>> = Vec::new();
 				for x in 0..k {
+					if let Some((p, w)) = inv {
+						if p == x {
+							alone.push(INVALID_REPLIES[w].as_bytes().to_vec());
+							continue;
+						}
+					}
 					let o = rt.block_on(srvref::http_roundtrip(&mut http, entry(x, if x == j { n } else { 3 }).as_bytes()));
 					alone.push(o.replies.first().cloned().unwrap_or_default());
 				}
@@ -173,7 +212,7 @@ pub fn check(rep: &Reporter) {
 				expected_array.push(b']');
 				for tname in ["http", "ws"] {
 					let o = if tname == "http" { rt.block_on(srvref::http_roundtrip(&mut http, text.as_bytes())) } else { rt.block_on(srvref::ws_roundtrip(&ws, text.as_bytes())) };
-					let case = json!({"engine":"ENUM","part":"batch","limit": l, "transport": tname, "entries": k, "adjusted_entry": j, "array_len_minus_limit": total as i64 - l as i64, "request": text,
+					let case = json!({"engine":"ENUM","part":"batch","limit": l, "transport": tname, "entries": k, "adjusted_entry": j, "invalid_entry_at": inv.map(|(p, _)| p), "array_len_minus_limit": total as i64 - l as i64, "request": text,
 						"replies": o.replies.iter().map(|r| String::from_utf8_lossy(r).to_string()).collect::<Vec<_>>()});
 					let rel = (total as i64 - l as i64).clamp(-4, 4);
 					if o.replies.len() != 1 {
@@ -197,9 +236,10 @@ pub fn check(rep: &Reporter) {
 					if got.len() > l as usize && fixed_error(got).is_none() {
 						rep.violation(&format!("wire:frame-above-limit:{tname}:batch"), &format!("L={l}: a {}-byte batch reply was sent", got.len()), case.clone());
 					}
-					local.case_unique(&format!("batch:{tname}:{class}"));
+					local.case_unique(&format!("batch:{tname}:{class}{}", if inv.is_some() { ":with-invalid-entry" } else { "" }));
 				}
 			}
+		}
 		}
 	});
 
